@@ -136,6 +136,12 @@ class TreeWorld:
         m = M(t.value, t.id, tuple(models))
         if t.id in used:
             return
+        if len(m_paths(m)) > MAX_NODES:
+            # a very wide node (key-encoding boundaries of the trie): judged once, here,
+            # and not kept in the pool (every later rule would pay for it again)
+            self.check_tree(t, m)
+            self.bump("very_wide_nodes_checked")
+            return
         self.add(t, m)
 
     def op_replace(self, ti: int, path_sel: int, ri: int, retain_id: bool):
@@ -338,7 +344,11 @@ class TreeWorld:
                 first_concrete = (k + len(self.ops)) % 2 == 0
                 for concrete in ((True, False) if first_concrete else (False, True)):
                     key = f"k{k}{'c' if concrete else 'p'}"
-                    obs[key] = sorted(map(str, t.k_paths(self.graph, k, include_potential_paths=not concrete)))
+                    # (repr of a grammar-graph node prints its whole subgraph: use type, symbol, id)
+                    obs[key] = sorted(
+                        tuple((type(n).__name__, n.symbol, getattr(n, "id", None)) for n in kp)
+                        for kp in t.k_paths(self.graph, k, include_potential_paths=not concrete)
+                    )
             obs["kcov"] = round(t.k_coverage(self.graph, 2), 6)
         return obs
 
@@ -639,7 +649,8 @@ def build_machine(focus: str):
         def inner(self, nt, ch):
             self.do(["inner", nt, ch])
 
-        @rule(nt=idx, c=idx, n=st.one_of(st.integers(min_value=27, max_value=40), st.integers(min_value=41, max_value=120),
+        @rule(nt=idx, c=idx, n=st.one_of(st.integers(min_value=27, max_value=40), st.integers(min_value=27, max_value=40), st.integers(min_value=27, max_value=60),
+                                         st.integers(min_value=41, max_value=120),
                                          st.sampled_from([53, 54, 55, 56, 57, 80, 81, 82, 108, 109, 728, 729, 730, 755, 756, 757, 758])))
         def wide(self, nt, c, n):
             self.do(["inner", nt, [c] * n])
